@@ -21,9 +21,9 @@ kernel meh: pybrops/popgen/gmat/DenseGenotypeMatrix.py :: DenseGenotypeMatrix.me
 kernel gtfreq: pybrops/popgen/gmat/DenseGenotypeMatrix.py :: DenseGenotypeMatrix.gtfreq  sha=2d09aa5c62011217  ok
     slice: targets ['out', 'recip'] -> out
     out of scope (parameter gtcount): `self.gtcount()`
-kernel afixed: pybrops/popgen/gmat/DenseGenotypeMatrix.py :: DenseGenotypeMatrix.afixed  sha=1089bb60512c7a92  FAILED
+kernel afixed: pybrops/popgen/gmat/DenseGenotypeMatrix.py :: DenseGenotypeMatrix.afixed  sha=83aeae2d6b5fc799  ok
     slice: targets ['out'] -> out
-    afixed (pybrops/popgen/gmat/DenseGenotypeMatrix.py:DenseGenotypeMatrix.afixed): Untranslatable: call `(gtcount == self.ntaxa).any(0)`
+    out of scope (parameter): afreq = self.afreq()
 kernel maf: pybrops/popgen/gmat/DenseGenotypeMatrix.py :: DenseGenotypeMatrix.maf  sha=155e14948454c1ef  ok
     slice: targets ['mask', 'out'] -> out
     out of scope (parameter afreq): `self.afreq(dtype)`
@@ -75,7 +75,9 @@ def gtfreq {α : Type} [Mul α] [Div α] [OfNat α 1] (ntaxa : α) (gtcount : α
   out
 
 /-- pybrops/popgen/gmat/DenseGenotypeMatrix.py :: DenseGenotypeMatrix.afixed; model counterpart: Genotype.afixedOf -/
--- NOT TRANSLATED: afixed (pybrops/popgen/gmat/DenseGenotypeMatrix.py:DenseGenotypeMatrix.afixed): Untranslatable: call `(gtcount == self.ntaxa).any(0)`
+def afixed {α : Type} [OfNat α 0] [OfNat α 1] [DecidableEq α] (afreq : α) : Bool :=
+  let out : Bool := decide ((afreq = 0) ∨ (afreq = 1))
+  out
 
 /-- pybrops/popgen/gmat/DenseGenotypeMatrix.py :: DenseGenotypeMatrix.maf; model counterpart: Genotype.mafOf -/
 def maf {α : Type} [Sub α] [Div α] [OfNat α 1] [OfNat α 2] [LT α] [DecidableLT α] (afreq : α) : α :=
